@@ -219,6 +219,85 @@ def discover_auto(ctx, rng, endian):
     ctx.case("discover_auto", key=(device_id, endian), sample={**inp, "requests": [r[0] for r in srv.requests]})
 
 
+def discover_login_recovers(ctx, rng, n_fail):
+    """devices are discovered without auto-connect; `Discover.connect()` for the first one meets a cloud whose
+    login fails (timeouts / HTTP errors up to the retry budget): that must surface as a cloud error; a later
+    `Discover.connect()` - cloud healthy again - must log in afresh and authenticate the device with its
+    registered credentials (a failed login must not poison later connects)"""
+    devs, regs = [], {}
+    for k in range(2):
+        device_id = rng.randrange(2 ** 40, 2 ** 48)
+        token, key = bytes(rng.randrange(256) for _ in range(64)), bytes(rng.randrange(256) for _ in range(32))
+        ip = f"10.9.7.{k + 1}"
+        regs[Security.udpid(device_id.to_bytes(6, "little")).hex()] = (token, key)
+        devs.append((ip, device_id, token, key, simdev.SimDevice(version=3, device_id=device_id, token=token, key=key)))
+
+    def registry(u):
+        if u in regs:
+            return [{"udpId": u, "token": regs[u][0].hex(), "key": regs[u][1].hex()}]
+        return [{"udpId": u, "token": "00" * 64, "key": "00" * 32}]
+    fault = rng.choice(["timeout", "http500", "connect"])
+    srv = SpecServer(ctx, {"nethome+us@mailinator.com": "password1"}, registry, faults=[])
+    out = {"steps": []}
+
+    async def scenario(loop, net):
+        for ip, device_id, token, key, dev in devs:
+            net.add_tcp(ip, 6444, dev)
+
+        def responder(net_, data, addr, reply):
+            if addr[1] == 6445 and "sent" not in out:
+                out["sent"] = True
+                for i, (ip, device_id, token, key, dev) in enumerate(devs):
+                    sn = discsim.ascii_bytes(rng, 32)
+                    reply(0.1 + 0.05 * i, discsim.spec_reply(ctx, rng, 3, device_id, ip, 6444, sn, b"net_ac_%04d" % i), (ip, 6445))
+        net.add_udp_responder(responder)
+        found = await Discover.discover(timeout=1, auto_connect=False, get_async_client=srv.client_factory)
+        out["found"] = found
+        order = sorted(found, key=lambda d: d.ip)
+        # 1. the cloud is down for the first connect
+        srv.faults = [fault] * n_fail
+        try:
+            r = await Discover.connect(order[0])
+            out["steps"].append(("connect-cloud-down", "returned:%s" % r))
+        except CloudError:
+            out["steps"].append(("connect-cloud-down", "err:cloud"))
+        except Exception as e:  # noqa
+            out["steps"].append(("connect-cloud-down", "err:py:" + type(e).__name__))
+        # 2. the cloud is back: both devices connect
+        srv.faults = []
+        for d in order[::-1] + order[:1]:
+            try:
+                r = await Discover.connect(d)
+                out["steps"].append(("connect-cloud-up", "returned:%s" % r))
+            except CloudError:
+                out["steps"].append(("connect-cloud-up", "err:cloud"))
+            except Exception as e:  # noqa
+                out["steps"].append(("connect-cloud-up", "err:py:" + type(e).__name__))
+    try:
+        vloop.run(scenario)
+    except Exception as e:  # noqa
+        out["exc"] = type(e).__name__ + ": " + str(e)[:80]
+    inp = {"failed_requests_first": n_fail, "fault": fault}
+    found = out.get("found") or []
+    authed = [d for d in found if any(d.token == t.hex() and d.key == k.hex() for _, _, t, k, _ in devs) and d.online]
+    down = [s_ for s_ in out["steps"] if s_[0] == "connect-cloud-down"]
+    up = [s_ for s_ in out["steps"] if s_[0] == "connect-cloud-up"]
+    if "exc" in out or len(found) != 2:
+        ctx.violate("login_recovers", inp, {"exc": out.get("exc"), "found": len(found)}, "two devices discovered", "scenario failed")
+    else:
+        if n_fail >= 3 and down and down[0][1] not in ("err:cloud",):
+            ctx.violate("login_recovers", inp, down, "a cloud error", "an exhausted cloud login did not surface as a cloud error")
+        if any(s_[1] != "returned:True" for s_ in up) or len(authed) != 2:
+            ctx.violate("login_recovers", inp, {"steps": out["steps"], "authenticated": len(authed)},
+                        "every connect made while the cloud is healthy authenticates the device with its registered credentials",
+                        "a failed cloud login kept later connects from authenticating")
+    bad = [p_ for p_ in srv.problems if "session id" in p_]
+    if bad:
+        ctx.violate("login_recovers", inp, bad[:2], "every getToken request carries a session id obtained by a login",
+                    "a token request was sent without a valid session")
+    ctx.case("login_recovers", key=(n_fail, fault, tuple(d[1] for d in devs)), sample={**inp, "steps": out["steps"], "authenticated": len(authed)})
+
+
 def sign_correspondence(ctx, rng, n):
     sec = NetHomePlusCloud._Security()
     for _ in range(n):
@@ -258,6 +337,8 @@ def run(ctx):
     for _ in range(6 if not thorough else 100):
         for endian in ("little", "big"):
             discover_auto(ctx, rng, endian)
+    for n_fail in (3, 3, 4, 5):
+        discover_login_recovers(ctx, rng, n_fail)
 
 
 def search(ctx):
